@@ -24,6 +24,12 @@ Theorem C15_authz : forall chk kind us,
   authorize chk kind us = true <-> (forall u t, In (u, t) us -> chk (perm_for kind u) t = true).
 Proof. exact authorize_iff. Qed.
 
+(* ... and then every reported usage was actually put to the permission oracle, one question per
+   usage in order - no usage is skipped (e.g. because its table was already asked about in another role) *)
+Theorem C15_checks_made : forall chk kind us, authorize chk kind us = true ->
+  checks_made chk kind us = map (fun p => (perm_for kind (fst p), snd p)) us.
+Proof. exact executes_checks_all. Qed.
+
 (* The property: under a schema that passes both checks, a statement executes only if every table it
    references anywhere had a permission check that passed (read for references, the kind's own write
    permission for its target), and a schema-changing statement only with DSN-administrator authority. *)
